@@ -1,50 +1,29 @@
-/- MANTIS, configuration 64le: the generated pieces equal the reference forms -/
-import SkinnyVerif.Lemmas.MantisRef
+/- MANTIS, configuration 64le: the generated pieces equal the reference forms
+   (each piece is proved in its own module `MantisPieces_64le_<piece>`) -/
+import SkinnyVerif.Lemmas.MantisPieces_64le_pre
+import SkinnyVerif.Lemmas.MantisPieces_64le_fwd
+import SkinnyVerif.Lemmas.MantisPieces_64le_mid
+import SkinnyVerif.Lemmas.MantisPieces_64le_bwd
+import SkinnyVerif.Lemmas.MantisPieces_64le_post
+import SkinnyVerif.Lemmas.MantisPieces_64le_preT
+import SkinnyVerif.Lemmas.MantisPieces_64le_fwdT
+import SkinnyVerif.Lemmas.MantisPieces_64le_midT
+import SkinnyVerif.Lemmas.MantisPieces_64le_bwdT
+import SkinnyVerif.Lemmas.MantisPieces_64le_postT
 
 namespace SkinnyVerif.Lemmas
 open SkinnyVerif SkinnyVerif.Gen SkinnyVerif.Impl
 
-set_option maxRecDepth 8000
-set_option maxHeartbeats 8000000
-
 theorem mantisPieces_64le : MantisPiecesOK (opsMantis .c64le) where
-  pre := by
-    intro input ks
-    refine Prod.ext ?_ (Prod.ext ?_ ?_) <;> simp only [opsMantis] <;> mantis_bits
-  fwd := by
-    intro st tw k1 r
-    refine Prod.ext ?_ ?_ <;> simp only [opsMantis] <;> mantis_bits
-  mid := by
-    intro st k1
-    refine Prod.ext ?_ ?_ <;> simp only [opsMantis]
-    · mantis_bits_sbox
-    · mantis_bits
-  bwd := by
-    intro st tw k1 r
-    refine Prod.ext ?_ ?_ <;> simp only [opsMantis]
-    · mantis_bits_sbox
-    · mantis_bits
-  post := by
-    intro st tw k1 ks
-    simp only [opsMantis]; mantis_bits
-  preT := by
-    intro input ks tw
-    refine Prod.ext ?_ (Prod.ext ?_ ?_) <;> simp only [opsMantis] <;> mantis_bits
-  fwdT := by
-    intro st tw k1 r
-    refine Prod.ext ?_ ?_ <;> simp only [opsMantis] <;> mantis_bits
-  midT := by
-    intro st k1
-    refine Prod.ext ?_ ?_ <;> simp only [opsMantis]
-    · mantis_bits_sbox
-    · mantis_bits
-  bwdT := by
-    intro st tw k1 r
-    refine Prod.ext ?_ ?_ <;> simp only [opsMantis]
-    · mantis_bits_sbox
-    · mantis_bits
-  postT := by
-    intro st tw k1 ks
-    simp only [opsMantis]; mantis_bits
+  pre := mantisPiece_64le_pre
+  fwd := mantisPiece_64le_fwd
+  mid := mantisPiece_64le_mid
+  bwd := mantisPiece_64le_bwd
+  post := mantisPiece_64le_post
+  preT := mantisPiece_64le_preT
+  fwdT := mantisPiece_64le_fwdT
+  midT := mantisPiece_64le_midT
+  bwdT := mantisPiece_64le_bwdT
+  postT := mantisPiece_64le_postT
 
 end SkinnyVerif.Lemmas
